@@ -4,7 +4,7 @@
 #include <tulz/Exception.h>
 #include "vf.h"
 extern "C" { unsigned vf_fs_add(unsigned parent, const char *name, unsigned is_dir); void vf_fs_set(unsigned node, unsigned i, unsigned byte); unsigned vf_fs_size(unsigned node);
-  unsigned vf_fs_byte(unsigned node, unsigned i); unsigned long vf_fs_open_handles(void); }
+  unsigned vf_fs_byte(unsigned node, unsigned i); unsigned long vf_fs_open_handles(void); const char *vf_fs_root(void); }
 using namespace tulz;
 #define MAXB 6
 // cube: [0] write mode (0 Write,1 WriteText,2 Append,3 AppendText) [1] total bytes written (0..MAXB) [2] split point (first write call gets this many)
@@ -24,7 +24,7 @@ static void write_part(File &f, int from, int to, int overload) {
 }
 extern "C" void harness(void) {
   int wm = __vf_cube(0), total = __vf_cube(1), split = __vf_cube(2), ov = __vf_cube(3), presz = __vf_cube(4), rp = __vf_cube(5), rm = __vf_cube(6), scen = __vf_cube(7);
-  unsigned node = 0;
+  unsigned node = 0; (void) vf_fs_root();   // native replay: creates and enters the temporary directory
   if (presz >= 0) { node = vf_fs_add(0, "f", 0); for (int i = 0; i < 2; i++) if (i < presz) { pre[i] = __vf_nondet_uchar(); vf_fs_set(node, i, pre[i]); } }
   vf_fs_add(0, "d", 1);
   for (int i = 0; i < MAXB; i++) content[i] = __vf_nondet_uchar();
